@@ -21,20 +21,20 @@ inductive J
 deriving Repr
 
 def isWs (c : UInt8) : Bool := c == 32 || c == 9 || c == 10 || c == 13
-def isDigit (c : UInt8) : Bool := 48 ≤ c.toNat && c.toNat ≤ 57
+def jsonIsDigit (c : UInt8) : Bool := 48 ≤ c.toNat && c.toNat ≤ 57
 
-def skipWs : Str → Str
-  | c :: cs => if isWs c then skipWs cs else c :: cs
+def jsonSkipWs : Str → Str
+  | c :: cs => if isWs c then jsonSkipWs cs else c :: cs
   | [] => []
 
 /-- scans a number literal; returns (text, rest) -/
-def scanNumber (s : Str) : Option (Str × Str) :=
-  let takeDigits (s : Str) : Str × Str := (s.takeWhile isDigit, s.dropWhile isDigit)
+def jsonScanNumber (s : Str) : Option (Str × Str) :=
+  let takeDigits (s : Str) : Str × Str := (s.takeWhile jsonIsDigit, s.dropWhile jsonIsDigit)
   let (neg, s1) := match s with | 45 :: r => ([(45 : UInt8)], r) | _ => ([], s)
   match s1 with
   | [] => none
   | c :: r =>
-    if ¬ isDigit c then none else
+    if ¬ jsonIsDigit c then none else
     let (intPart, s2) := if c == 48 then ([c], r) else takeDigits s1
     let (frac, s3) := match s2 with
       | 46 :: r2 => let (d, r3) := takeDigits r2; (if d.isEmpty then none else some ((46 : UInt8) :: d), r3)
@@ -62,7 +62,7 @@ def hex4 (a b c d : UInt8) : Option Nat := do
   some (((a * 16 + b) * 16 + c) * 16 + d)
 
 /-- scans a string body after the opening quote; returns (unescaped bytes, rest after closing quote) -/
-def scanString : Nat → Str → Str → Option (Str × Str)
+def jsonScanString : Nat → Str → Str → Option (Str × Str)
   | 0, _, _ => none
   | _, _, [] => none
   | fuel+1, acc, c :: cs =>
@@ -70,14 +70,14 @@ def scanString : Nat → Str → Str → Option (Str × Str)
     else if c.toNat < 32 then none
     else if c == 92 then
       match cs with
-      | 34 :: r => scanString fuel (34 :: acc) r
-      | 92 :: r => scanString fuel (92 :: acc) r
-      | 47 :: r => scanString fuel (47 :: acc) r
-      | 98 :: r => scanString fuel (8 :: acc) r
-      | 102 :: r => scanString fuel (12 :: acc) r
-      | 110 :: r => scanString fuel (10 :: acc) r
-      | 114 :: r => scanString fuel (13 :: acc) r
-      | 116 :: r => scanString fuel (9 :: acc) r
+      | 34 :: r => jsonScanString fuel (34 :: acc) r
+      | 92 :: r => jsonScanString fuel (92 :: acc) r
+      | 47 :: r => jsonScanString fuel (47 :: acc) r
+      | 98 :: r => jsonScanString fuel (8 :: acc) r
+      | 102 :: r => jsonScanString fuel (12 :: acc) r
+      | 110 :: r => jsonScanString fuel (10 :: acc) r
+      | 114 :: r => jsonScanString fuel (13 :: acc) r
+      | 116 :: r => jsonScanString fuel (9 :: acc) r
       | 117 :: a :: b :: c2 :: d :: r =>
         match hex4 a b c2 d with
         | none => none
@@ -89,14 +89,14 @@ def scanString : Nat → Str → Str → Option (Str × Str)
               match hex4 a' b' c' d' with
               | some lo =>
                 if 0xDC00 ≤ lo ∧ lo < 0xE000 then
-                  scanString fuel ((utf8Encode (0x10000 + (cp - 0xD800) * 1024 + (lo - 0xDC00))).reverse ++ acc) r'
-                else scanString fuel ((utf8Encode 0xFFFD).reverse ++ acc) r
+                  jsonScanString fuel ((utf8Encode (0x10000 + (cp - 0xD800) * 1024 + (lo - 0xDC00))).reverse ++ acc) r'
+                else jsonScanString fuel ((utf8Encode 0xFFFD).reverse ++ acc) r
               | none => none
-            | _ => scanString fuel ((utf8Encode 0xFFFD).reverse ++ acc) r
-          else if 0xDC00 ≤ cp ∧ cp < 0xE000 then scanString fuel ((utf8Encode 0xFFFD).reverse ++ acc) r
-          else scanString fuel ((utf8Encode cp).reverse ++ acc) r
+            | _ => jsonScanString fuel ((utf8Encode 0xFFFD).reverse ++ acc) r
+          else if 0xDC00 ≤ cp ∧ cp < 0xE000 then jsonScanString fuel ((utf8Encode 0xFFFD).reverse ++ acc) r
+          else jsonScanString fuel ((utf8Encode cp).reverse ++ acc) r
       | _ => none
-    else scanString fuel (c :: acc) cs
+    else jsonScanString fuel (c :: acc) cs
 
 def lit (w : String) (s : Str) : Option Str :=
   let bs := w.toList.map ch
@@ -107,22 +107,22 @@ mutual
 def parseValue : Nat → Str → Option (J × Str)
   | 0, _ => none
   | fuel+1, s =>
-    match skipWs s with
+    match jsonSkipWs s with
     | [] => none
     | c :: cs =>
       if c == 110 then (lit "null" (c :: cs)).map fun r => (J.null, r)
       else if c == 116 then (lit "true" (c :: cs)).map fun r => (J.bool true, r)
       else if c == 102 then (lit "false" (c :: cs)).map fun r => (J.bool false, r)
-      else if c == 34 then (scanString (cs.length + 1) [] cs).map fun (t, r) => (J.str t, r)
+      else if c == 34 then (jsonScanString (cs.length + 1) [] cs).map fun (t, r) => (J.str t, r)
       else if c == 91 then
-        match skipWs cs with
+        match jsonSkipWs cs with
         | 93 :: r => some (J.arr [], r)
         | _ => (parseElems fuel cs []).map fun (xs, r) => (J.arr xs, r)
       else if c == 123 then
-        match skipWs cs with
+        match jsonSkipWs cs with
         | 125 :: r => some (J.obj [], r)
         | _ => (parseMembers fuel cs []).map fun (kvs, r) => (J.obj kvs, r)
-      else (scanNumber (c :: cs)).map fun (t, r) => (J.num t, r)
+      else (jsonScanNumber (c :: cs)).map fun (t, r) => (J.num t, r)
 
 def parseElems : Nat → Str → List J → Option (List J × Str)
   | 0, _, _ => none
@@ -130,7 +130,7 @@ def parseElems : Nat → Str → List J → Option (List J × Str)
     match parseValue fuel s with
     | none => none
     | some (v, r) =>
-      match skipWs r with
+      match jsonSkipWs r with
       | 44 :: r2 => parseElems fuel r2 (v :: acc)
       | 93 :: r2 => some ((v :: acc).reverse, r2)
       | _ => none
@@ -138,17 +138,17 @@ def parseElems : Nat → Str → List J → Option (List J × Str)
 def parseMembers : Nat → Str → List (Str × J) → Option (List (Str × J) × Str)
   | 0, _, _ => none
   | fuel+1, s, acc =>
-    match skipWs s with
+    match jsonSkipWs s with
     | 34 :: cs =>
-      match scanString (cs.length + 1) [] cs with
+      match jsonScanString (cs.length + 1) [] cs with
       | none => none
       | some (k, r) =>
-        match skipWs r with
+        match jsonSkipWs r with
         | 58 :: r2 =>
           match parseValue fuel r2 with
           | none => none
           | some (v, r3) =>
-            match skipWs r3 with
+            match jsonSkipWs r3 with
             | 44 :: r4 => parseMembers fuel r4 ((k, v) :: acc)
             | 125 :: r4 => some (((k, v) :: acc).reverse, r4)
             | _ => none
@@ -159,7 +159,7 @@ end
 /-- a complete JSON document: one value surrounded by whitespace -/
 def parseJson (s : Str) : Option J :=
   match parseValue (s.length + 2) s with
-  | some (v, r) => if (skipWs r).isEmpty then some v else none
+  | some (v, r) => if (jsonSkipWs r).isEmpty then some v else none
   | none => none
 
 def lowerAscii (c : UInt8) : UInt8 := if 65 ≤ c.toNat ∧ c.toNat ≤ 90 then c + 32 else c
@@ -167,7 +167,7 @@ def keyMatches (k : Str) (name : String) : Bool := k.map lowerAscii == name.toLi
 
 /-- unsigned integer literal within `[0, max]` as `encoding/json` accepts it for uint fields -/
 def uintLit (t : Str) (max : Nat) : Option Nat :=
-  if t.isEmpty ∨ ¬ t.all isDigit then none else
+  if t.isEmpty ∨ ¬ t.all jsonIsDigit then none else
   let v := t.foldl (fun a c => a * 10 + (c.toNat - 48)) 0
   if v ≤ max then some v else none
 
